@@ -7,6 +7,7 @@ CONSTANTS
   Bug_DestroyIgnoresLock = FALSE
   Bug_OpenTruncatesOnFailure = FALSE
   Bug_UnlinkLockAfterRelease = FALSE
+  Bug_DestroyWipesAfterRelease = FALSE
 INVARIANTS TypeOK OneOwner IntruderFailsCleanly OnlyOwnerWrites AtMostOneWinner
 PROPERTIES SomeWinner CallsReturn
 CHECK_DEADLOCK TRUE
